@@ -135,19 +135,51 @@ STATUSES = [
     (100, 100), (101, 101), (199, 199), (200, 200), (201, 201), (204, 204), (206, 206), (301, 301), (304, 304),
     (404, 404), (500, 500), (HTTPStatus.NO_CONTENT, 204), (HTTPStatus.NOT_MODIFIED, 304), ("204 NO CONTENT", 204),
     ("304 x", 304), ("299 Custom", 299), ("200", 200), ("100 Continue", 100),
+    # padded status strings (seed C05-4b): leading / trailing / both, space / tab / newline, bodyless and not
+    (" 204 No Content", 204), ("204 No Content ", 204), ("\t204 No Content\t", 204), (" 204", 204),
+    (" 200 OK", 200), ("200 OK\n", 200), (" 304 Not Modified ", 304), ("\t302 Found", 302), ("100 Continue ", 100),
     # thorough only from here
     (102, 102), (205, 205), (HTTPStatus.OK, 200), (HTTPStatus.CONTINUE, 100), (" 204 ", 204), ("204", 204),
     ("304", 304), ("404 Not Found", 404), (599, 599), (None, 200),
 ]
-N_QUICK_STATUS = 18
+N_QUICK_STATUS = 27
 METHODS = ["GET", "HEAD", "POST"]
 LOCATIONS = [None, "/rel", "http://h/abs", "/é x", "//other/p", "http://bücher.example/ü?q=ä b",
-             "/docs#übersicht", "http://ü:ä@h/p;ö?k=v#第一章"]
+             "/docs#übersicht", "http://ü:ä@h/p;ö?k=v#第一章",
+             # references without scheme / host: they inherit parts of the request URL when autocorrected
+             "sibling", "./x", "../x", "?q=ä", "#frag", "/rooted", "", "../../ü/./y"]
+ENV_BODIES = ("str", "closable", "fw-dp")
 PREOPS = ["none", "get_data", "calc", "make_sequence", "freeze"]
 WRAPS = ["none", "call", "from_app", "from_app-buffered", "force_type-app", "force_type-response"]
 CONSUME = ["all", "nothing", "one"]
 ENV = {m: create_environ(method=m, base_url="http://localhost/app/") for m in METHODS}
-ASCII_URI = re.compile(r"[\x21-\x7e]+")
+ASCII_URI = re.compile(r"[\x21-\x7e]*")   # printable ASCII; an empty reference (same document) is a URI reference too
+STATUS_LINE = re.compile(r"\d{3} [^\s\x00-\x1f\x7f](?:[^\x00-\x1f\x7f]*[^\s\x00-\x1f\x7f])?")
+
+
+def _envs():
+    """request environments the Location is joined onto when autocorrect_location_header is on (seed C05-4a)"""
+    out = []
+    specs = [
+        ("default", dict(base_url="http://localhost/app/"), {}),
+        ("path-non-ascii", dict(path="/café/menü/x", base_url="http://localhost/"), {}),
+        ("script-non-ascii", dict(path="/x/y", base_url="http://localhost/büro/app/"), {}),
+        ("host-idn-raw", dict(path="/a/b", base_url="http://localhost/"), {"HTTP_HOST": "bücher.example"}),
+        ("host-punycode", dict(path="/a/b", base_url="http://xn--bcher-kva.example/"), {}),
+        ("https-port", dict(path="/a/b c", base_url="https://example.com:8443/r/"), {}),
+        ("query", dict(path="/a/é", base_url="http://localhost/", query_string="q=ä&x=1"), {}),
+    ]
+    for name, kw, over in specs:
+        envs = {}
+        for m in METHODS:
+            e = create_environ(method=m, **kw)
+            e.update(over)
+            envs[m] = e
+        out.append((name, envs))
+    return out
+
+
+ENVS = _envs()
 
 
 def a_cases_for(bname, sti, tier):
@@ -159,13 +191,20 @@ def a_cases_for(bname, sti, tier):
     if tier == "thorough":
         for method, preset, (loci, auto), ncb, preop, consume, wrap in itertools.product(
                 METHODS, (False, True), locs, (0, 1, 2), PREOPS, CONSUME, WRAPS):
-            yield (bname, sti, method, preset, loci, auto, ncb, preop, consume, wrap)
+            yield (bname, sti, method, preset, loci, auto, ncb, preop, consume, wrap, 0)
+        for envi, method, (loci, auto), wrap in itertools.product(
+                range(1, len(ENVS)), METHODS, locs[1:], ("none", "from_app")):
+            yield (bname, sti, method, False, loci, auto, 1, "none", "all", wrap, envi)
         return
     for method, preset, ncb, preop, consume, wrap in itertools.product(
             METHODS, (False, True), (0, 1, 2), PREOPS, CONSUME, WRAPS):
-        yield (bname, sti, method, preset, None, False, ncb, preop, consume, wrap)
+        yield (bname, sti, method, preset, None, False, ncb, preop, consume, wrap, 0)
     for method, (loci, auto), wrap in itertools.product(METHODS, locs[1:], ("none", "from_app")):
-        yield (bname, sti, method, False, loci, auto, 1, "none", "all", wrap)
+        yield (bname, sti, method, False, loci, auto, 1, "none", "all", wrap, 0)
+    # Location x autocorrect x request environment (independent of the body: three representative bodies in quick)
+    if bname in ENV_BODIES:
+        for envi, method, (loci, auto) in itertools.product(range(1, len(ENVS)), METHODS, locs[1:]):
+            yield (bname, sti, method, False, loci, auto, 1, "none", "all", "none", envi)
 
 
 class SubResponse(Response):
@@ -174,7 +213,7 @@ class SubResponse(Response):
 
 def drive(case):
     """Run one case against the real code. Returns an observation dict (never raises for expected paths)."""
-    bname, sti, method, preset, loci, auto, ncb, preop, consume, wrap = case
+    bname, sti, method, preset, loci, auto, ncb, preop, consume, wrap, envi = case
     body, tracker, dp, expected = BODIES[bname]()
     st, code = STATUSES[sti]
     kw = {} if st is None else {"status": st}
@@ -207,7 +246,7 @@ def drive(case):
         r.headers["Location"] = LOCATIONS[loci]
     if preset:
         r.headers["Content-Length"] = str(len(expected))
-    env = ENV[method]
+    env = ENVS[envi][1][method]
     inner = r
     if wrap in ("from_app", "from_app-buffered"):
         r = Response.from_app(inner, env, buffered=wrap.endswith("buffered"))
@@ -254,10 +293,11 @@ def drive(case):
 
 def judge(case, ob):
     """-> list of problem names (empty = the statement holds on this case)."""
-    bname, sti, method, preset, loci, auto, ncb, preop, consume, wrap = case
+    bname, sti, method, preset, loci, auto, ncb, preop, consume, wrap, envi = case
     bad = []
     status, headers, data, code = ob["status"], ob["headers"], ob["data"], ob["code"]
-    if not (isinstance(status, str) and re.fullmatch(r"\d{3} [^\r\n]+", status) and int(status[:3]) == code):
+    # 'ddd reason': no surrounding blanks, no control characters, the intended code
+    if not (isinstance(status, str) and STATUS_LINE.fullmatch(status) and int(status[:3]) == code):
         bad.append("status-line")
     if not isinstance(headers, list) or any(not (isinstance(h, tuple) and len(h) == 2) for h in headers):
         return bad + ["header-list-shape"]
@@ -304,7 +344,7 @@ def judge(case, ob):
 
 
 def a_nontrivial(case):
-    bname, sti, method, preset, loci, auto, ncb, preop, consume, wrap = case
+    bname, sti, method, preset, loci, auto, ncb, preop, consume, wrap, envi = case
     code = STATUSES[sti][1]
     return (method == "HEAD" or 100 <= code < 200 or code in (204, 304) or loci is not None or ncb > 0
             or bname not in ("str", "bytes") or preop != "none" or consume != "all" or wrap != "none")
@@ -328,7 +368,7 @@ def run_a_unit(unit, R, tier):
             R.nontrivial(case)
         nobody = case[2] == "HEAD" or 100 <= ob["code"] < 200 or ob["code"] in (204, 304)
         R.use("nobody:%s" % nobody, "preop:" + case[7], "consume:" + case[8], "ncb:%d" % case[6],
-              "loc:%s" % case[4], "has_close:%s" % ob["has_close"], "preset:%s" % case[3], "wrap:" + case[9])
+              "loc:%s" % case[4], "has_close:%s" % ob["has_close"], "preset:%s" % case[3], "wrap:" + case[9], "env:" + ENVS[case[10]][0])
         if "content-length" in {k.lower() for k, _ in ob["headers"]}:
             R.use("cl-present")
         else:
@@ -815,7 +855,7 @@ def finalize(R, tier):
     need |= {"nobody:True", "nobody:False", "cl-present", "cl-absent", "has_close:True", "has_close:False",
              "preset:True", "preset:False"}
     need |= {"preop:" + p for p in PREOPS} | {"consume:" + c for c in CONSUME} | {"ncb:0", "ncb:1", "ncb:2"}
-    need |= {"wrap:" + w for w in WRAPS}
+    need |= {"wrap:" + w for w in WRAPS} | {"env:" + e[0] for e in ENVS}
     need |= {"loc:%s" % i for i in [None] + list(range(1, len(LOCATIONS)))}
     need |= {"op:" + o for o in MUTATORS} | {"val:" + v[0] for v in VALUES}
     need |= {"ok:" + o for o in MUTATORS if o not in ALWAYS_BAD}
@@ -857,8 +897,8 @@ def replay(rec):
         except Exception as e:  # noqa: BLE001
             return True, f"case {case}: exception {e!r}"
         bad = judge(case, ob)
-        bname, sti, method, preset, loci, auto, ncb, preop, consume, wrap = case
-        text = (f"[{wrap}] Response(<{bname}>, status={STATUSES[sti][0]!r}, direct_passthrough={ob['dp']}), "
+        bname, sti, method, preset, loci, auto, ncb, preop, consume, wrap, envi = case
+        text = (f"[{wrap}, request environ {ENVS[envi][0]}] Response(<{bname}>, status={STATUSES[sti][0]!r}, direct_passthrough={ob['dp']}), "
                 f"Location={LOCATIONS[loci] if loci is not None else None!r} autocorrect={auto} "
                 f"preset Content-Length={preset}, {ncb} call_on_close callbacks, pre-op={preop}\n"
                 f"{method}: status={ob['status']!r} headers={ob['headers']}\n"
